@@ -1,4 +1,5 @@
 import BoltonsVerif.C13.Proofs
+import BoltonsVerif.C13.SessionProofs
 /-
 C13 — property theorems for the model of `funcutils.wraps / update_wrapper /
 FunctionBuilder` (statements, short derivations from `Proofs.lean`, non-vacuity
@@ -98,16 +99,22 @@ theorem accepts_spec (s : Sig) (c : Call) :
 
 /-! ## plain `wraps(f)` -/
 
+/-- `annOf f` - what `getfullargspec(f)` reports, and therefore what the builder starts from and
+    what ends up in `__annotations__` of the built function - holds the annotation of every
+    parameter of `f` (entries of `f.__annotations__` that name no parameter are not carried over) -/
+theorem annotations_reported (f : Func) (p : Name) (hp : p ∈ paramNames f) :
+    get? p (annOf f) = get? p f.ann := get?_annOf hp
+
 /-- `wraps(f)` (any options) builds a function with the same own signature, the same
-    annotations, the same sync/async kind -/
+    annotations (`annotations_reported`), the same sync/async kind -/
 theorem sig_preserved (f : Func) (wf : WfFunc f) (o : Opts) (ident : Nat) :
     ∃ w, updateWrapper f [] [] o ident = .ok w ∧ sigOf w = sigOf f ∧
-      w.ann = f.ann ∧ w.retAnn = f.retAnn ∧ w.isAsync = f.isAsync := by
+      w.ann = annOf f ∧ w.retAnn = f.retAnn ∧ w.isAsync = f.isAsync := by
   have h := updateWrapper_of_steps (f := f) (inj := []) (exp := []) (o := o) (ident := ident)
     (fb1 := FB.fromFunc f) (fb2 := FB.fromFunc f) rfl rfl
   have hn : (FB.fromFunc f).names.Nodup := wf.nodup
   rw [if_pos hn] at h
-  exact ⟨_, h, rfl, rfl, rfl, rfl⟩
+  exact ⟨_, h, sigOf_fromFunc f _ _, rfl, rfl, rfl⟩
 
 /-- `__name__`, `__doc__` (also a missing one), `__module__` are the wrapped function's and
     `__wrapped__` points at it -/
@@ -128,7 +135,7 @@ theorem accepts_iff (f : Func) (o : Opts) (ident : Nat) (w : Func)
   obtain ⟨fb1, fb2, h1, h2, _, rfl⟩ := updateWrapper_inv h
   simp only [injectAll, Except.ok.injEq] at h1; subst h1
   simp only [expectAll, Except.ok.injEq] at h2; subst h2
-  rfl
+  rw [sigOf_fromFunc]
 
 /-- every function `update_wrapper` returns - with any `injected` / `expected` lists -
     hands ITS OWN bound arguments on: the call its body makes evaluates, and re-binding that
@@ -157,7 +164,7 @@ theorem forwarding (f : Func) (o : Opts) (ident : Nat) (w : Func)
     obtain ⟨fb1, fb2, h1, h2, _, rfl⟩ := updateWrapper_inv h
     simp only [injectAll, Except.ok.injEq] at h1; subst h1
     simp only [expectAll, Except.ok.injEq] at h2; subst h2
-    rfl
+    exact sigOf_fromFunc f _ _
   have := forwarding_general f [] [] o ident w h c b (hs ▸ hb)
   rwa [hs] at this
 
@@ -182,7 +189,7 @@ def Sig.removeAll (s : Sig) (xs : List Name) : Sig :=
 theorem injected_removes_exactly (f : Func) (wf : WfFunc f) (x : Name)
     (hx : x ∈ f.args ∨ x ∈ f.kwonly) (o : Opts) (ident : Nat) :
     ∃ w, updateWrapper f [x] [] o ident = .ok w ∧ sigOf w = (sigOf f).remove x ∧
-      w.ann = f.ann ∧ w.retAnn = f.retAnn ∧ w.isAsync = f.isAsync ∧
+      w.ann = annOf f ∧ w.retAnn = f.retAnn ∧ w.isAsync = f.isAsync ∧
       w.name = f.name ∧ w.doc = f.doc ∧ w.module = f.module := by
   have wfb := wfFB_fromFunc wf
   have hstep : ∃ fb', (FB.fromFunc f).removeArg x = .ok fb' ∧ WfFB fb' ∧
@@ -214,14 +221,14 @@ theorem injected_removes_exactly (f : Func) (wf : WfFunc f) (x : Name)
     exact List.Nodup.sublist hsub wf.nodup
   rw [if_pos hn] at h
   refine ⟨_, h, ?_, hann, hret, hasy, hname, hdoc, hmod⟩
-  rw [sigOf_toFunc, hp, hk, hva, hvk]; rfl
+  rw [sigOf_toFunc, hp, hk, hva, hvk, fromFunc_kwSig]; rfl
 
 /-- a whole `injected` list: whenever `update_wrapper` succeeds, all the named parameters -
     and nothing else - are gone (names that are no parameter are ignored when `**kw` can
     catch them) -/
 theorem injected_removes_all (f : Func) (wf : WfFunc f) (inj : List Name) (o : Opts) (ident : Nat)
     (w : Func) (h : updateWrapper f inj [] o ident = .ok w) :
-    sigOf w = (sigOf f).removeAll inj ∧ w.ann = f.ann ∧ w.retAnn = f.retAnn ∧
+    sigOf w = (sigOf f).removeAll inj ∧ w.ann = annOf f ∧ w.retAnn = f.retAnn ∧
       w.isAsync = f.isAsync ∧ w.name = f.name ∧ w.doc = f.doc ∧ w.module = f.module := by
   obtain ⟨fb1, fb2, h1, h2, _, rfl⟩ := updateWrapper_inv h
   simp only [expectAll, Except.ok.injEq] at h2; subst h2
@@ -229,7 +236,7 @@ theorem injected_removes_all (f : Func) (wf : WfFunc f) (inj : List Name) (o : O
   simp only [FB.rest, Prod.mk.injEq] at hrest
   obtain ⟨hname, hdoc, hmod, hva, hvk, hann, hret, hasy⟩ := hrest
   refine ⟨?_, hann, hret, hasy, hname, hdoc, hmod⟩
-  rw [sigOf_toFunc, hp, hk, hva, hvk]; rfl
+  rw [sigOf_toFunc, hp, hk, hva, hvk, fromFunc_kwSig]; rfl
 
 /-- a name that is no parameter: MissingArgument, unless `**kw` is there to catch it and
     `inject_to_varkw` is on, in which case the signature is unchanged -/
@@ -249,7 +256,7 @@ theorem injected_missing (f : Func) (wf : WfFunc f) (x : Name) (hx : x ∉ f.arg
     have h := updateWrapper_of_steps (f := f) (exp := []) (o := o) (ident := ident) h1 rfl
     have hn : (FB.fromFunc f).names.Nodup := wf.nodup
     rw [if_pos hn] at h
-    exact ⟨_, h, rfl⟩
+    exact ⟨_, h, sigOf_fromFunc f _ _⟩
   · intro hc
     have hc' : ¬ ((o.injectToVarkw && (FB.fromFunc f).varkw.isSome) = true) := by
       simp only [Bool.and_eq_true]; exact hc
@@ -269,7 +276,7 @@ theorem expected_adds_exactly_required (f : Func) (wf : WfFunc f) (z : Name) (hz
       (∀ p ∈ pre, p.2 = none) ∧ (∀ p ∈ post, p.2.isSome) ∧
       (sigOf w).varargs = (sigOf f).varargs ∧ (sigOf w).kwonly = (sigOf f).kwonly ∧
       (sigOf w).varkw = (sigOf f).varkw ∧
-      w.ann = f.ann ∧ w.retAnn = f.retAnn ∧ w.isAsync = f.isAsync ∧
+      w.ann = annOf f ∧ w.retAnn = f.retAnn ∧ w.isAsync = f.isAsync ∧
       w.name = f.name ∧ w.doc = f.doc ∧ w.module = f.module := by
   have hz' : z ∉ f.args ∧ z ∉ f.varargs.toList ∧ z ∉ f.kwonly ∧ z ∉ f.varkw.toList := by
     simp only [paramNames, List.mem_append, not_or] at hz
@@ -304,7 +311,7 @@ theorem expected_adds_exactly_required (f : Func) (wf : WfFunc f) (z : Name) (hz
     rw [hperm.nodup_iff, List.nodup_cons]
     exact ⟨hz, wf.nodup⟩
   rw [if_pos hn] at h
-  exact ⟨_, pre, post, h, hp0, hp1, hpre, hpost, hva, hk, hvk, hann, hret, hasy, hname, hdoc, hmod⟩
+  exact ⟨_, pre, post, h, hp0, hp1, hpre, hpost, hva, hk.trans (fromFunc_kwSig f), hvk, hann, hret, hasy, hname, hdoc, hmod⟩
 
 /-- `expected=[(z, v)]`, `z` a fresh name: the own signature gains exactly the positional
     parameter `z=v`, appended after the positional parameters -/
@@ -312,7 +319,7 @@ theorem expected_adds_exactly_default (f : Func) (wf : WfFunc f) (z : Name) (v :
     (hz : z ∉ paramNames f) (o : Opts) (ident : Nat) :
     ∃ w, updateWrapper f [] [(z, some v)] o ident = .ok w ∧
       sigOf w = { sigOf f with pos := (sigOf f).pos ++ [(z, some v)] } ∧
-      w.ann = f.ann ∧ w.retAnn = f.retAnn ∧ w.isAsync = f.isAsync ∧
+      w.ann = annOf f ∧ w.retAnn = f.retAnn ∧ w.isAsync = f.isAsync ∧
       w.name = f.name ∧ w.doc = f.doc ∧ w.module = f.module := by
   have hz' : z ∉ f.args ∧ z ∉ f.varargs.toList ∧ z ∉ f.kwonly ∧ z ∉ f.varkw.toList := by
     simp only [paramNames, List.mem_append, not_or] at hz
@@ -340,7 +347,7 @@ theorem expected_adds_exactly_default (f : Func) (wf : WfFunc f) (z : Name) (v :
     exact ⟨hz, wf.nodup⟩
   rw [if_pos hn] at h
   refine ⟨_, h, ?_, hann, hret, hasy, hname, hdoc, hmod⟩
-  rw [sigOf_toFunc, hp1, hk, hva, hvk]; rfl
+  rw [sigOf_toFunc, hp1, hk, hva, hvk, fromFunc_kwSig]; rfl
 
 /-- an `expected` name that already is a positional or keyword-only parameter is refused -/
 theorem expected_existing (f : Func) (z : Name) (d : Option Val) (hz : z ∈ f.args ∨ z ∈ f.kwonly)
@@ -380,7 +387,7 @@ theorem defaults_stay_attached (f : Func) (wf : WfFunc f) (inj : List Name)
   unfold Sig.dflt
   rw [sigOf_toFunc, get?_append, get?_append]
   show (get? p fb2.posSig).or (get? p fb2.kwSig) = _
-  rw [hd p he, hk2, hp, hk, hfilter, hfilter]
+  rw [hd p he, hk2, hp, hk, hfilter, hfilter, fromFunc_kwSig]
   rfl
 
 /-- the function `update_wrapper` returns is again a well-formed function object - so it can
@@ -402,9 +409,10 @@ def wrapsN (f : Func) (o : Opts) : Nat → Except Err Func
     | .error e => .error e
 
 /-- a stack of `n` plain `wraps` decorators still has the innermost function's own signature,
-    annotations, kind and metadata, whatever `n` -/
+    annotations (of its parameters: what `getfullargspec` / `inspect.signature` report), kind and
+    metadata, whatever `n` -/
 theorem stacked_wraps (f : Func) (wf : WfFunc f) (o : Opts) (n : Nat) :
-    ∃ w, wrapsN f o n = .ok w ∧ WfFunc w ∧ sigOf w = sigOf f ∧ w.ann = f.ann ∧ w.retAnn = f.retAnn ∧
+    ∃ w, wrapsN f o n = .ok w ∧ WfFunc w ∧ sigOf w = sigOf f ∧ annOf w = annOf f ∧ w.retAnn = f.retAnn ∧
       w.isAsync = f.isAsync ∧ w.name = f.name ∧ w.doc = f.doc ∧ w.module = f.module := by
   induction n with
   | zero => exact ⟨f, rfl, wf, rfl, rfl, rfl, rfl, rfl, rfl, rfl⟩
@@ -412,7 +420,13 @@ theorem stacked_wraps (f : Func) (wf : WfFunc f) (o : Opts) (n : Nat) :
     obtain ⟨w, hw, wfw, hs, ha, hr, hy, hn, hd, hm⟩ := ih
     obtain ⟨w', hw', hs', ha', hr', hy'⟩ := sig_preserved w wfw o (w.ident + 1)
     obtain ⟨hn', hd', hm', _⟩ := metadata_preserved w o (w.ident + 1) w' hw'
-    refine ⟨w', ?_, wrapper_wellformed w wfw [] [] o _ w' hw', hs'.trans hs, ha'.trans ha, hr'.trans hr,
+    have ha'' : annOf w' = annOf w := by
+      unfold annOf
+      rw [ha', paramNames_of_sigOf hs']
+      unfold annOf
+      rw [List.filter_filter]
+      simp
+    refine ⟨w', ?_, wrapper_wellformed w wfw [] [] o _ w' hw', hs'.trans hs, ha''.trans ha, hr'.trans hr,
       hy'.trans hy, hn'.trans hn, hd'.trans hd, hm'.trans hm⟩
     simp only [wrapsN, hw]
     exact hw'
@@ -427,13 +441,14 @@ theorem history_defaults_stay_attached (f : Func) (wf : WfFunc f) (ops : List BO
     (w : Func) (h : buildHistory f ops ident = .ok w) :
     WfFunc w ∧ (∀ p, p ∉ ops.map BOp.name → (sigOf w).dflt p = (sigOf f).dflt p) ∧
       (sigOf w).varargs = (sigOf f).varargs ∧ (sigOf w).varkw = (sigOf f).varkw ∧
-      w.ann = f.ann ∧ w.retAnn = f.retAnn ∧ w.isAsync = f.isAsync ∧
+      w.ann = annOf f ∧ w.retAnn = f.retAnn ∧ w.isAsync = f.isAsync ∧
       w.name = f.name ∧ w.doc = f.doc ∧ w.module = f.module := by
   obtain ⟨fb, hr, hn, rfl⟩ := buildHistory_inv h
   obtain ⟨wf', hrest, hd⟩ := run_spec (wfFB_fromFunc wf) ops hr
   simp only [FB.rest, Prod.mk.injEq] at hrest
   obtain ⟨hname, hdoc, hmod, hva, hvk, hann, hret, hasy⟩ := hrest
-  exact ⟨⟨hn, wf'.len, wf'.kwd, wf'.kwdNodup⟩, fun p hp => hd p hp, hva, hvk, hann, hret, hasy,
+  exact ⟨⟨hn, wf'.len, wf'.kwd, wf'.kwdNodup⟩,
+    fun p hp => (hd p hp).trans (by rw [fromFunc_kwSig]; rfl), hva, hvk, hann, hret, hasy,
     hname, hdoc, hmod⟩
 
 /-- … and it forwards its own bound arguments, like every function the builder compiles -/
@@ -448,6 +463,76 @@ theorem history_forwarding (f : Func) (ops : List BOp) (ident : Nat) (w : Func)
   unfold callWrapper
   rw [hb, parseCall_body fb ident _ hn]
   exact he
+
+/-! ## several uses in one process (sessions)
+
+`Session.lean`: a heap of dict objects; `from_func` allocates copies, the builder's mutators
+write into the builder's `kwonlydefaults` dict in place, `get_func` installs the builder's
+dicts in the new function, the user may edit `__kwdefaults__` / `__annotations__` of any
+function in place.  A session is any list of requests (`update_wrapper` with any injected /
+expected lists and options, a builder history, an in-place edit), each aimed at any function
+existing at that moment. -/
+
+/-- every state a session can reach keeps the dict objects of distinct functions distinct -/
+theorem session_reachable_inv (fs : List Func) (rs : List Req) : Inv (run (St.init fs) rs).1 :=
+  (run_refines rs (init_spec fs).1).1
+
+/-- for every session: what the public API shows of every function at the end, and the
+    outcome of every request, are those of the heap-free telling, in which each request is
+    the pure `updateWrapper` / builder history applied to its target as it is at that moment
+    and nothing else moves - no use of `wraps` can disturb another one -/
+theorem session_refines (fs : List Func) (rs : List Req) :
+    ((run (St.init fs) rs).1.view, (run (St.init fs) rs).2) = prun fs rs := by
+  have h := (run_refines rs (init_spec fs).1).2
+  rw [(init_spec fs).2] at h
+  exact h
+
+/-- one request, whatever it is, changes no function that existed before - the wrapped
+    function included - except the one function an in-place edit is aimed at -/
+theorem session_noninterference (s : St) (hi : Inv s) (r : Req) (i : Nat) (f : Func)
+    (hf : s.view[i]? = some f) (hr : r.edits ≠ some i) : (step s r).1.view[i]? = some f := by
+  have h := (step_refines hi r).2
+  have hv : (step s r).1.view = (pstep s.view r).1 := by rw [← h]
+  rw [hv]
+  exact pstep_keeps s.view r i f hf hr
+
+/-- the function a `wraps` / `update_wrapper` request returns is the one `Model.lean`
+    describes (so every theorem above applies to it), and it stays that function whatever
+    requests follow - on the same wrapped function, on other functions, on itself as a
+    target - as long as nobody edits it -/
+theorem session_built_stays (s : St) (hi : Inv s) (t : Nat) (inj : List Name)
+    (exp : List (Name × Option Val)) (o : Opts) (f w : Func) (hf : s.view[t]? = some f)
+    (hw : updateWrapper f inj exp o (s.funcs.length + 1) = .ok w) (rs : List Req)
+    (hr : ∀ r ∈ rs, r.edits ≠ some s.funcs.length) :
+    (step s (.wrap t inj exp o)).2 = .built ∧
+      (run (step s (.wrap t inj exp o)).1 rs).1.view[s.funcs.length]? = some w := by
+  obtain ⟨hi1, h1⟩ := step_refines hi (.wrap t inj exp o)
+  have hp : pstep s.view (.wrap t inj exp o) = (s.view ++ [w], .built) := by
+    simp only [pstep, hf, view_length, hw]
+  rw [hp] at h1
+  have h1a : (step s (.wrap t inj exp o)).1.view = s.view ++ [w] := (Prod.mk.inj h1).1
+  have h1b : (step s (.wrap t inj exp o)).2 = .built := (Prod.mk.inj h1).2
+  refine ⟨h1b, ?_⟩
+  have h2 := (run_refines rs hi1).2
+  have h2a : (run (step s (.wrap t inj exp o)).1 rs).1.view =
+      (prun (step s (.wrap t inj exp o)).1.view rs).1 := by rw [← h2]
+  rw [h2a, h1a]
+  apply prun_keeps rs _ _ _ _ hr
+  rw [← view_length, List.getElem?_append_right (Nat.le_refl _)]
+  simp
+
+/-- plain `wraps(f)` in the middle of any session: the new function has `f`'s own signature,
+    annotations, kind and metadata - and still has them after any further requests that do
+    not edit it -/
+theorem session_wraps_timeless (s : St) (hi : Inv s) (t : Nat) (o : Opts) (f : Func)
+    (hf : s.view[t]? = some f) (wf : WfFunc f) (rs : List Req)
+    (hr : ∀ r ∈ rs, r.edits ≠ some s.funcs.length) :
+    ∃ w, (run (step s (.wrap t [] [] o)).1 rs).1.view[s.funcs.length]? = some w ∧
+      sigOf w = sigOf f ∧ w.ann = annOf f ∧ w.retAnn = f.retAnn ∧ w.isAsync = f.isAsync ∧
+      w.name = f.name ∧ w.doc = f.doc ∧ w.module = f.module := by
+  obtain ⟨w, hw, hs, ha, hret, hasy⟩ := sig_preserved f wf o (s.funcs.length + 1)
+  obtain ⟨hn, hd, hm, _⟩ := metadata_preserved f o _ w hw
+  exact ⟨w, (session_built_stays s hi t [] [] o f w hf hw rs hr).2, hs, ha, hret, hasy, hn, hd, hm⟩
 
 /-! ## non-vacuity -/
 
@@ -481,5 +566,14 @@ example : (buildHistory exF [.remove 2, .add 6 none false, .add 8 (some 42) true
 example : (wrapsN exF {} 3).toOption.map (fun w => (sigOf w, w.wrapped)) = some (sigOf exF, some 3) := by decide
 example : errOf (updateWrapper exF [] [(7, none)]) = some .syntaxError := by decide
 example : errOf (updateWrapper { exF with varkw := none } [8] []) = some .missingArgument := by decide
+
+/-- the same function wrapped three times, the second time with its keyword-only `p5=25`
+    injected; then the user edits the second wrapper: nobody else notices -/
+example : (run (St.init [exF]) [.wrap 0 [] [] {}, .wrap 0 [5] [] {}, .wrap 0 [] [] {},
+      .setKwd 2 4 (some 77)]).1.view.map (fun w => (sigOf w).kwonly) =
+    [[(4, none), (5, some 25)], [(4, none), (5, some 25)], [(4, some 77)], [(4, none), (5, some 25)]] := by
+  decide
+example : (run (St.init [exF]) [.wrap 0 [] [] {}, .hist 1 [.remove 5, .add 8 (some 42) true], .wrap 1 [] [] {}]).2 =
+    [.built, .built, .built] := by decide
 
 end C13
